@@ -6,7 +6,7 @@
      scalar_spaces.py: _numba_p1_surface_gradient; shapesets.py                  -> [ev_scalar] .. [grad_p1]
      api/assembly/grid_function.py: _project_function(_vectorized), _integrate, evaluate,
          evaluate_on_element_centers, evaluate_on_vertices, l2_norm (squared)    -> [project] .. [l2_norm_sq]
-     api/assembly/boundary_operator.py: MultiplicationOperator._assemble (mode 'component') -> [mult_op_core]  *)
+     api/assembly/boundary_operator.py: MultiplicationOperator._assemble -> [mult_op_core], [mult_op_inner]  *)
 From Coq Require Import List Arith Bool.
 From BV Require Import AssemblyA.Sums AssemblyA.Mat AssemblyA.Dense.
 Import ListNotations.
@@ -94,12 +94,12 @@ Section SparseModel.
   Definition gf_eval (S : space A) (ev : basisfn) (coef : nat -> A) (e : nat) (p : pt2 A) (d : nat) : A :=
     sumf (fun i => ev e i p d * coef (sp_l2g S e i)) (seq 0 (sp_ns S)).
 
-  (* _integrate: sum(sum((element_vals * weights) * (coefficients[l2g[e]] * local_multipliers[e]).reshape(ns,1)))
-     * integration_elements[e]; element_vals already contains the multipliers *)
+  (* _integrate: sum(sum((element_vals * weights) * coefficients[l2g[e]].reshape(ns,1))) * integration_elements[e];
+     element_vals (numba_evaluate) contains the local multipliers *)
   Definition integrate (nel : nat) (rule : list (pt2 A * A)) (intel : nat -> A) (S : space A) (ev : basisfn)
              (coef : nat -> A) (d : nat) : A :=
     sumf (fun e =>
-      sumf (fun i => sumf (fun q => ev e i (fst q) d * snd q * (coef (sp_l2g S e i) * sp_mult S e i)) rule)
+      sumf (fun i => sumf (fun q => ev e i (fst q) d * snd q * coef (sp_l2g S e i)) rule)
            (seq 0 (sp_ns S)) * intel e) (support_elements nel S).
 
   (* what integrate is meant to be: quadrature of the represented function *)
@@ -126,22 +126,28 @@ Section SparseModel.
   (* l2_norm()^2 for real coefficients: vec' (mass vec) *)
   Definition l2_norm_sq (I : list nat) (mass : mat) (coef : nat -> A) : A := bilin I I coef mass coef.
 
-  (* MultiplicationOperator._assemble, mode 'component', no dof transformation: element list
-     flatnonzero(trial.support*test.support*fun.support); the integration element is read at the POSITION
-     of the element in that list: grid.integration_elements[index] *)
-  Definition enumerate {B} (l : list B) : list (nat * B) := combine (seq 0 (length l)) l.
+  (* MultiplicationOperator._assemble (no dof transformation): elements = flatnonzero(trial.support*test.support*
+     fun.support); scale_vals = g.evaluate(e, points) * weights * integration_elements[e];
+     mode 'component': trial_vals = domain_vals * scale_vals[:, newaxis, :]  (component d with component d),
+     mode 'inner':     trial_vals = sum_d domain_vals[d] * scale_vals[d]      (test space scalar);
+     res = tensordot(test_vals, trial_vals, axes=([0, 2], [0, 2])); the evaluators contain the multipliers *)
   Definition mult_elements (nel : nat) (St Sr Sf : space A) : list nat :=
     filter (fun e => sp_support Sr e && sp_support St e && sp_support Sf e) (seq 0 nel).
-  Definition mult_op_triplets (intel_at : nat -> nat -> nat) (nel dim : nat) (rule : list (pt2 A * A))
-             (intel : nat -> A) (St Sr Sf : space A) (evt evr evf : basisfn) (gcoef : nat -> A) : list trip :=
-    flat_map (fun pe => let '(pos, e) := pe in
-      flat_map (fun i => map (fun j =>
-        (sp_l2g St e i, sp_l2g Sr e j,
-         sumf (fun d => sumf (fun q => evt e i (fst q) d *
-                 (evr e j (fst q) d * (gf_eval Sf evf gcoef e (fst q) d * snd q * intel (intel_at pos e))))
-               rule) (seq 0 dim))) (seq 0 (sp_ns Sr))) (seq 0 (sp_ns St)))
-      (enumerate (mult_elements nel St Sr Sf)).
-  (* the code: intel_at pos e = pos;  the intended operator: intel_at pos e = e *)
-  Definition mult_op_core := mult_op_triplets (fun pos e => pos).
-  Definition mult_op_intended := mult_op_triplets (fun pos e => e).
+  Definition mult_scale (rule_pt : pt2 A * A) (intel : nat -> A) (Sf : space A) (evf : basisfn) (gcoef : nat -> A)
+             (e d : nat) : A := gf_eval Sf evf gcoef e (fst rule_pt) d * snd rule_pt * intel e.
+  Definition mult_local (dim : nat) (rule : list (pt2 A * A)) (intel : nat -> A) (Sf : space A)
+             (evt evr evf : basisfn) (gcoef : nat -> A) (e i j : nat) : A :=
+    sumf (fun d => sumf (fun q => evt e i (fst q) d * (evr e j (fst q) d * mult_scale q intel Sf evf gcoef e d)) rule)
+         (seq 0 dim).
+  Definition mult_local_inner (dim : nat) (rule : list (pt2 A * A)) (intel : nat -> A) (Sf : space A)
+             (evt evr evf : basisfn) (gcoef : nat -> A) (e i j : nat) : A :=
+    sumf (fun q => evt e i (fst q) 0%nat *
+                   sumf (fun d => evr e j (fst q) d * mult_scale q intel Sf evf gcoef e d) (seq 0 dim)) rule.
+  Definition mult_op_triplets (Lm : nat -> nat -> nat -> A) (nel : nat) (St Sr Sf : space A) : list trip :=
+    flat_map (fun e => flat_map (fun i => map (fun j => (sp_l2g St e i, sp_l2g Sr e j, Lm e i j)) (seq 0 (sp_ns Sr)))
+                                (seq 0 (sp_ns St))) (mult_elements nel St Sr Sf).
+  Definition mult_op_core (nel dim : nat) rule intel (St Sr Sf : space A) evt evr evf gcoef : list trip :=
+    mult_op_triplets (mult_local dim rule intel Sf evt evr evf gcoef) nel St Sr Sf.
+  Definition mult_op_inner (nel dim : nat) rule intel (St Sr Sf : space A) evt evr evf gcoef : list trip :=
+    mult_op_triplets (mult_local_inner dim rule intel Sf evt evr evf gcoef) nel St Sr Sf.
 End SparseModel.
